@@ -116,6 +116,14 @@ func (w *limitWriter) Write(p []byte) (int, error) {
 	return n, errors.New("injected write fault")
 }
 
+// twice ranges ONE iterator value three times: stopped after the first item, then to the end twice.
+func twice[T any](seq iter.Seq2[T, error], f func(T) string, limit int) (second, third []string, status string) {
+	_, st1 := collect(seq, f, 1, limit)
+	second, st2 := collect(seq, f, 0, limit)
+	third, st3 := collect(seq, f, 0, limit)
+	return second, third, st1 + st2 + st3
+}
+
 // collect drains an iterator. stop > 0: the consumer declines at its stop-th
 // call. Returns canonical items, and a status: "" | "CALLED-AFTER-STOP" |
 // "NONTERM".
@@ -184,6 +192,8 @@ type format struct {
 	decOp  string
 	decode func(r io.Reader, stop int, limit int) ([]string, string)
 	file   func(path string, stop int, limit int) ([]string, string)
+	// fileTwice: ONE iterator value from File(path), ranged with a stop after its first item, then fully, then fully again
+	fileTwice func(path string, limit int) ([]string, []string, string)
 	// well-formed inputs (writer output of generated records), and near-valid / arbitrary inputs
 	wellFormed func(c *Ctx) []byte
 	malformed  func(c *Ctx) []byte
